@@ -6,6 +6,7 @@ import (
 	"fmt"
 	"net/http/httptest"
 	"os"
+	"reflect"
 	"runtime"
 	"runtime/pprof"
 	"sort"
@@ -14,6 +15,7 @@ import (
 	_ "time/tzdata"
 	"unsafe"
 
+	"github.com/VictoriaMetrics/fastcache"
 	clcfg "github.com/metrico/cloki-config/config"
 	"github.com/metrico/qryn/reader/logql/logql_transpiler_v2/clickhouse_planner"
 	"github.com/metrico/qryn/writer/config"
@@ -160,7 +162,12 @@ type ckey struct {
 }
 
 type shadowLog struct {
-	held map[ckey]struct{}
+	// epoch: the real cache offers no way to forget through its exported API (only its 30-minute ticker resets it), so
+	// "the cache is empty again" — a cache reset event, or the start of another history — is a new key epoch: every key
+	// is XOR-ed with a per-epoch mask before it reaches the real cache, which therefore has never seen any key of the
+	// new epoch.  Everything else (views per node, cluster bypass, key spaces, locking) is the real cache's doing.
+	epoch uint64
+	held  map[ckey]struct{}
 	set  map[ckey]struct{} // this request: CheckAndSet returned false (pair announced now)
 	hit  map[ckey]struct{} // this request: CheckAndSet returned true (pair suppressed)
 }
@@ -171,8 +178,15 @@ type shadowCache struct {
 	log  *shadowLog
 }
 
+func epochMask(e uint64) uint64 { // splitmix64: distinct epochs give distinct masks
+	e += 0x9e3779b97f4a7c15
+	e = (e ^ (e >> 30)) * 0xbf58476d1ce4e5b9
+	e = (e ^ (e >> 27)) * 0x94d049bb133111eb
+	return e ^ (e >> 31)
+}
+
 func (s shadowCache) CheckAndSet(k uint64) bool {
-	res := s.real.CheckAndSet(k)
+	res := s.real.CheckAndSet(k ^ epochMask(s.log.epoch))
 	ck := ckey{s.db, k}
 	s.log.held[ck] = struct{}{}
 	if res {
@@ -227,6 +241,7 @@ type pushRec struct {
 type world struct {
 	cfg      bConfig
 	cache    *numbercache.Cache[uint64]
+	realSets *fastcache.Cache // the store behind the real cache, located by TYPE (nil if the shape changed); only emptied for hygiene
 	slog     *shadowLog
 	shadow   map[ckey]struct{} // = slog.held
 	fake     *ir.FakeCH    // client of n1; its pending faults are shared with the client of n2
@@ -251,18 +266,25 @@ type world struct {
 	notes    map[string]bool
 }
 
+var w0notes []string
+
 func newWorld(cfg bConfig) *world {
 	ir.InitWriterGlobals()
 	config.Cloki.Setting.SYSTEM_SETTINGS.RetryAttempts = cfg.Retry
 	config.Cloki.Setting.SYSTEM_SETTINGS.RetryTimeoutS = 0
 	service.CreateColPools(0)
-	service.VerifSmallPools() // same pools, small initial capacities (see _overlay/writer/service/zz_verif_export.go)
+	if !smallPools() { // same pools, small initial capacities; located by type, see pools.go
+		w0notes = append(w0notes, "column pools keep their production capacities (creator function not found by type): same verdicts, slower")
+	}
 	clusters := map[string][2]string{"ss": {"", ""}, "cc_same": {"c1", "c1"}, "cc_diff": {"c1", "c2"}, "cs": {"c1", ""}}[cfg.topo()]
 	nodes := []*model.DataDatabasesMap{
 		{ClokiBaseDataBase: clcfg.ClokiBaseDataBase{Node: "n1", Name: "db1", ClusterName: clusters[0], WriteTimeout: 30}},
 		{ClokiBaseDataBase: clcfg.ClokiBaseDataBase{Node: "n2", Name: "db2", ClusterName: clusters[1], WriteTimeout: 30}},
 	}
 	w := &world{cfg: cfg, notes: map[string]bool{}}
+	for _, n := range w0notes {
+		w.notes[n] = true
+	}
 	w.fake = ir.NewFakeCH()
 	w.fakes = []*ir.FakeCH{w.fake, ir.NewFakeCHSharing(w.fake.Faults())}
 	// ONE cache for all configured databases, as plugin.GoCache / controller.FPCache in production
@@ -290,6 +312,10 @@ func newWorld(cfg bConfig) *world {
 	}
 	controllerv1.Registry = reg
 	controllerv1.FPCache = shadowCache{w.cache, "", w.slog}
+	w.realSets = locateFastcache(w.cache)
+	if w.realSets == nil {
+		w.notes["the cache's fastcache store was not found by type: epochs alone separate the histories (the store is never emptied, it is a 100 MB ring)"] = true
+	}
 	h := controllerv1.PushStreamV2(controllerv1.NewMiddlewareConfig(controllerv1.WithExtraMiddlewareDefault...))
 	w.handler = func(rec *httptest.ResponseRecorder, body []byte) int {
 		req := httptest.NewRequest("POST", "/loki/api/v1/push", bytes.NewReader(body))
@@ -318,7 +344,7 @@ func newWorld(cfg bConfig) *world {
 }
 
 func (w *world) resetHistory() {
-	w.cache.VerifReset()
+	w.forget()
 	for k := range w.shadow {
 		delete(w.shadow, k)
 	}
@@ -401,11 +427,43 @@ func (w *world) restore(s *snap) {
 		w.poisoned[k] = v
 	}
 	for _, k := range s.Shadow {
-		w.cache.DB(k.DB).CheckAndSet(k.K) // the real cache relearns exactly the keys it held, through the same views
+		w.cache.DB(k.DB).CheckAndSet(k.K ^ epochMask(w.slog.epoch)) // the real cache relearns exactly the keys it held, through the same views
 		w.shadow[k] = struct{}{}
 	}
 	w.fake.SetFail("time_series", s.TsFail)
 	w.fake.SetFail("samples", s.SplFail)
+}
+
+// forget makes the real cache empty for everything that follows: a new key epoch (exported API only).  If the store
+// behind the cache could be located by type it is emptied as well, at quiescence — hygiene, so that dead epochs do not
+// pile up in the 100 MB ring; correctness does not depend on it.
+func (w *world) forget() {
+	w.slog.epoch++
+	if w.realSets != nil {
+		w.realSets.Reset()
+	}
+}
+
+// locateFastcache finds, by TYPE, the single *fastcache.Cache field of the cache object.
+func locateFastcache(c any) *fastcache.Cache {
+	v := reflect.ValueOf(c)
+	if v.Kind() != reflect.Ptr || v.IsNil() || v.Elem().Kind() != reflect.Struct {
+		return nil
+	}
+	e := v.Elem()
+	want := reflect.TypeOf((*fastcache.Cache)(nil))
+	var found *fastcache.Cache
+	n := 0
+	for i := 0; i < e.NumField(); i++ {
+		if f := e.Field(i); f.Type() == want {
+			n++
+			found = *(**fastcache.Cache)(unsafe.Pointer(f.UnsafeAddr()))
+		}
+	}
+	if n != 1 {
+		return nil
+	}
+	return found
 }
 
 // quiesce waits until every goroutine started for the request (parser, doPush/retry workers, drainers) is gone.
@@ -642,7 +700,7 @@ func (w *world) apply(e string) string {
 		if len(w.shadow) == 0 {
 			return ""
 		}
-		w.cache.VerifReset()
+		w.forget()
 		for k := range w.shadow {
 			delete(w.shadow, k)
 		}
